@@ -1,5 +1,6 @@
 use crate::fw::Ctx;
 
+pub mod c02;
 pub mod c03;
 pub mod c04;
 pub mod c05;
@@ -26,6 +27,7 @@ pub struct Prop {
 }
 
 pub const PROPS: &[Prop] = &[
+    Prop { id: "C02", run: c02::run, replay: c02::replay },
     Prop { id: "C03", run: c03::run, replay: c03::replay },
     Prop { id: "C04", run: c04::run, replay: c04::replay },
     Prop { id: "C05", run: c05::run, replay: c05::replay },
@@ -131,6 +133,35 @@ pub fn explore(args: &[String]) {
                     }
                 }
                 Err(e) => println!("COMPILE FAIL {e:?}"),
+            }
+        }
+        Some("refcorpus") => c02::explore_corpus(args.get(1).is_some()),
+        Some("c02gen") => {
+            // qv explore c02gen <n>: print generated programs with verdicts
+            let n: usize = args.get(1).and_then(|s| s.parse().ok()).unwrap_or(5);
+            let reg = crate::qrun::registry();
+            let mut shown = 0;
+            let want = args.get(2).cloned().unwrap_or_default();
+            for seed in 0..100000u64 {
+                let bytes: Vec<u8> = (0..300).map(|i| (crate::fw::hash64(&(seed, i as u64)) & 0xff) as u8).collect();
+                let (src, _) = c02::gen_program(&bytes);
+                let v = c02::compare(&src, &reg);
+                let text = format!("{v:?}");
+                if want.is_empty() || text.contains(&want) {
+                    println!("---- {text}\n{src}\n");
+                    shown += 1;
+                    if shown >= n {
+                        break;
+                    }
+                }
+            }
+        }
+        Some("c02cmp") => {
+            // qv explore c02cmp <file>: reference evaluator vs VM on programs separated by ====
+            let src = std::fs::read_to_string(&args[1]).expect("read");
+            let reg = crate::qrun::registry();
+            for prog in src.split("\n====\n") {
+                println!("{}\n  => {:?}\n", prog.trim(), c02::compare(prog, &reg));
             }
         }
         Some("sim") => {
